@@ -218,11 +218,27 @@ class Roles:
     def set(self):
         return self.storage_fn("set_shape_memo")
 
+    CANON = ("push_shape_memo", "pop_shape_memo", "get_shape_memo", "set_shape_memo", "shape_str", "print_bindings",
+             "set_treepath_memo", "clear_treepath_memo", "get_treepath_memo", "set_treeflatten_memo", "clear_treeflatten_memo",
+             "get_treeflatten_memo")
+
     def role_of_call(self, fn, call: ast.Call) -> Optional[str]:
-        """Name of the _storage function a call resolves to (through imports), else None."""
+        """Canonical name of the _storage function a call resolves to (through imports and
+        module-level aliases such as `push_shape_memo = _Stack.push`), else None."""
         t = self.m.resolve_call(fn, call)
         if t.kind == "func" and t.target.module.short == "_storage":
-            return t.target.name
+            if not hasattr(self, "_canon_by_id"):
+                self._canon_by_id = {}
+                for nm in self.CANON:
+                    f = self.m.functions.get(f"_storage.{nm}")
+                    if f is None:
+                        try:
+                            f = self.m.func(f"_storage.{nm}")
+                        except Exception:
+                            f = None
+                    if f is not None:
+                        self._canon_by_id[id(f)] = nm
+            return self._canon_by_id.get(id(t.target), t.target.name)
         return None
 
     # -------------------------------------------------------------- entry points
